@@ -571,13 +571,24 @@ func (c Cond) String() string {
 //	page     adds Limit(K).Offset(O) (O > 0); First/Last/Take, FindInBatches and continued reads
 //	         are not judged with it: a Limit that arrives while the finisher already runs replaces
 //	         the finder's LIMIT 1 / the batch size, which nothing documents
+//
+// Derive: before adding its clauses the scope derives a new session from the handle it is
+// given ("" | context: db.WithContext(ctx) | session: db.Session(&gorm.Session{}) | debug:
+// db.Debug()) - the usual shape of a "tenant from the request context" scope. The finisher
+// then goes on with the statement of the handle the scope returned.
 type Scope struct {
-	Kind string `json:"kind"`
-	K    int    `json:"k"`
-	O    int    `json:"o,omitempty"`
+	Kind   string `json:"kind"`
+	K      int    `json:"k"`
+	O      int    `json:"o,omitempty"`
+	Derive string `json:"derive,omitempty"`
 }
 
 func (s Scope) String() string {
+	if s.Derive != "" {
+		plain := s
+		plain.Derive = ""
+		return "derive-" + s.Derive + ":" + plain.String()
+	}
 	switch s.Kind {
 	case "cond":
 		return fmt.Sprintf("scope{Where(b >= %d)}", s.K)
@@ -593,6 +604,19 @@ func (s Scope) String() string {
 }
 
 func (s Scope) fn() func(*gorm.DB) *gorm.DB {
+	body := s.body()
+	switch s.Derive {
+	case "context":
+		return func(db *gorm.DB) *gorm.DB { return body(db.WithContext(context.Background())) }
+	case "session":
+		return func(db *gorm.DB) *gorm.DB { return body(db.Session(&gorm.Session{})) }
+	case "debug":
+		return func(db *gorm.DB) *gorm.DB { return body(db.Debug()) }
+	}
+	return body
+}
+
+func (s Scope) body() func(*gorm.DB) *gorm.DB {
 	switch s.Kind {
 	case "cond":
 		return func(db *gorm.DB) *gorm.DB { return db.Where("b >= ?", s.K) }
@@ -752,7 +776,7 @@ var orderKeys = map[string][]sortKey{
 
 var orderNames = []string{"none", "none", "none", "a desc, id", "a desc | id", "id", "id desc", "pk", "pk desc", "a desc", "b, a desc",
 	"a desc, id (columns)", "a desc, id (expr)", "b | id reorder", "(empty string)",
-	"b desc, a (expr via Clauses)", "a desc, id (expr)"}
+	"b desc, a (expr via Clauses)", "a desc, id (expr)", "id", "pk"}
 
 // keyOrdered reports whether First / Last / FindInBatches on a chain with this
 // ordering are ordered by the primary key alone: chains without an ordering,
@@ -764,6 +788,11 @@ var orderNames = []string{"none", "none", "none", "a desc, id", "a desc | id", "
 func keyOrdered(o string) bool {
 	return o == "none" || o == "a desc, id (expr)" || o == "b desc, a (expr via Clauses)"
 }
+
+// batchOrdered: orderings under which FindInBatches is in the generated domain: those of
+// keyOrdered plus an explicit ascending key ordering of the chain's own (the redundant
+// Order("id") people add to be sure: `ORDER BY id, recs.id` is the key order).
+func batchOrdered(o string) bool { return keyOrdered(o) || o == "id" || o == "pk" }
 
 func orderUsesPKSymbol(o string) bool { return o == "pk" || o == "pk desc" }
 
@@ -825,6 +854,8 @@ type Case struct {
 	// PresetID > 0: a struct destination whose primary key is already set (documented: it
 	// is used as an additional condition)
 	PresetID int64 `json:"preset_id,omitempty"`
+	// CallbackWrites: "" | delete: a last FindInBatches whose callback deletes the rows it was handed
+	CallbackWrites string `json:"callback_writes,omitempty"`
 	// StopAt > 0: the FindInBatches callback returns an error in that batch (documented: stops)
 	StopAt int `json:"stop_at,omitempty"`
 	// Scopes: functions handed to Scopes(...) (they run inside the finisher).
@@ -895,6 +926,9 @@ func (c Case) String() string {
 	}
 	if c.StopAt > 0 {
 		fmt.Fprintf(&b, " stop-at-batch=%d", c.StopAt)
+	}
+	if c.CallbackWrites != "" {
+		b.WriteString(" callback-writes=" + c.CallbackWrites)
 	}
 	if c.Mode == "all" {
 		fmt.Fprintf(&b, " reuse=%q continue-with=Limit(%d)", c.Reuse, c.ContLimit)
@@ -1906,7 +1940,7 @@ var errStop = errors.New("c15: callback asked to stop")
 // batchPaths: FindInBatches against Find under primary-key order and the
 // reference. Domain: no ordering of the chain's own.
 func (k *runner) batchPaths() {
-	if !keyOrdered(k.c.Order) || k.c.hasScope("page") {
+	if !batchOrdered(k.c.Order) || k.c.hasScope("page") {
 		return
 	}
 	ss := k.structSrc()
@@ -2056,6 +2090,15 @@ func (k *runner) continuationPaths() {
 	// What a read continued from there should see is not stated anywhere: left out.
 	if k.c.hasScope("order") || k.c.hasScope("page") || k.c.ColMode != "" || k.c.Distinct {
 		return
+	}
+	for _, sc := range k.c.Scopes {
+		if sc.Derive != "" && harness.OpenClass("C15", "count-continue-derived-scope") {
+			// known finding: when a scope derives a new session, Count hands back the derived
+			// statement still carrying its SELECT count(*) (the deferred clean-up was bound to the
+			// statement Count started with); a Find continued from there reads the count as a row
+			evid.Excluded("count-continue-derived-scope")
+			return
+		}
 	}
 	ps := k.plainSrc() // Count needs Model or Table
 	extra := k.c
@@ -2211,6 +2254,62 @@ func (k *runner) continuationPaths() {
 	}
 	if k.fail == "" {
 		count("reusable chain, Count again after the other reads", base)
+	}
+}
+
+// writingBatchPath: the documented use of FindInBatches - the callback works on the rows it
+// was handed so that they leave the chain's condition set (here: it deletes them, through
+// database/sql). Rows not yet delivered are untouched, so the call must still deliver every
+// row the chain matched when it started, once each, in key order. Runs last: it empties
+// part of the table.
+func (k *runner) writingBatchPath() {
+	if k.c.CallbackWrites == "" || !batchOrdered(k.c.Order) || k.c.hasScope("page") || k.c.Handle != "" {
+		return
+	}
+	want := k.ref.keyWin
+	var (
+		dest   []Rec
+		concat []Row
+		sizes  []int
+		werr   error
+	)
+	res := k.chain(k.structSrc(), false).FindInBatches(&dest, k.c.Batch, func(tx *gorm.DB, batch int) error {
+		if len(concat)+len(dest) > len(k.c.Rows) {
+			return errRunaway
+		}
+		ids := make([]interface{}, len(dest))
+		marks := make([]string, len(dest))
+		for i, r := range dest {
+			concat = append(concat, fromRec(r))
+			ids[i], marks[i] = int64(r.ID), "?"
+		}
+		sizes = append(sizes, len(dest))
+		if _, err := k.db.SQL.Exec("DELETE FROM recs WHERE id IN ("+strings.Join(marks, ",")+")", ids...); err != nil {
+			werr = err
+			return err
+		}
+		return nil
+	})
+	path := fmt.Sprintf("FindInBatches(batch=%d) whose callback deletes the rows of its batch", k.c.Batch)
+	if werr != nil {
+		k.failf("harness: %s: the DELETE failed: %v", path, werr)
+		return
+	}
+	if res.Error != nil {
+		k.failf("%s: unexpected error %v; delivered %s in batches %v, the chain matched %s", path, res.Error, rowsString(concat), sizes, rowsString(want))
+		return
+	}
+	if rowsString(concat) != rowsString(want) {
+		k.failf("%s delivered %s in batches %v; when it started the chain matched %s", path, rowsString(concat), sizes, rowsString(want))
+		return
+	}
+	for i, s := range sizes {
+		if s > k.c.Batch || s == 0 {
+			k.failf("%s: batch %d holds %d rows", path, i+1, s)
+		}
+	}
+	if int(res.RowsAffected) != len(want) {
+		k.failf("%s: RowsAffected=%d but %d rows delivered", path, res.RowsAffected, len(want))
 	}
 }
 
@@ -2509,7 +2608,7 @@ func checkCase(c Case) (violation string, harnessErr error) {
 }
 
 func (k *runner) run() string {
-	steps := []func(){k.findPaths, k.rowsPaths, k.scanPaths, k.pluckPaths, k.countPath, k.singlePaths, k.batchPaths, k.continuationPaths, k.extraPaths}
+	steps := []func(){k.findPaths, k.rowsPaths, k.scanPaths, k.pluckPaths, k.countPath, k.singlePaths, k.batchPaths, k.continuationPaths, k.extraPaths, k.writingBatchPath}
 	switch {
 	case k.c.Mode == "batch":
 		steps = []func(){k.batchPaths}
@@ -2580,6 +2679,9 @@ func classify(c Case, r *reference) (bool, []string) {
 	}
 	for _, sc := range c.Scopes {
 		cl = append(cl, "scope:"+sc.Kind)
+		if sc.Derive != "" {
+			cl = append(cl, "scope:derives-"+sc.Derive)
+		}
 	}
 	if c.Or != nil {
 		cl = append(cl, "cond:or-branch")
@@ -2604,6 +2706,12 @@ func classify(c Case, r *reference) (bool, []string) {
 	}
 	if c.PresetID > 0 {
 		cl = append(cl, "dest:preset-primary-key")
+	}
+	if c.CallbackWrites != "" && batchOrdered(c.Order) && !c.hasScope("page") && c.Handle == "" {
+		cl = append(cl, "batches:callback-deletes-delivered-rows")
+		if c.Order == "id" || c.Order == "pk" {
+			cl = append(cl, "batches:chain-orders-by-key-itself")
+		}
 	}
 	if c.StopAt > 0 && keyOrdered(c.Order) {
 		cl = append(cl, "batches:callback-error")
@@ -3033,6 +3141,7 @@ func genCase(rt *rapid.T) Case {
 			sc.K = rapid.IntRange(1, 8).Draw(rt, "scope-limit")
 			sc.O = rapid.IntRange(0, 4).Draw(rt, "scope-offset")
 		}
+		sc.Derive = rapid.SampledFrom([]string{"", "", "context", "session", "debug"}).Draw(rt, "scope-derive")
 		if sc.Kind == "order" && strings.Contains(c.Order, "(expr") {
 			continue // an ordering added to an OrderBy that carries an Expression: which one wins is not stated
 		}
@@ -3062,6 +3171,7 @@ func genCase(rt *rapid.T) Case {
 		}
 	}
 	c.StopAt = rapid.SampledFrom([]int{0, 0, 0, 1, 2, 3}).Draw(rt, "stop-at")
+	c.CallbackWrites = rapid.SampledFrom([]string{"", "delete", "delete"}).Draw(rt, "callback-writes")
 	if len(c.Conds) == 1 && rapid.IntRange(0, 2).Draw(rt, "or-branch") == 0 {
 		or := genCond(rt, maxID)
 		c.Or = &or
@@ -3183,5 +3293,33 @@ func TestC15WitnessBatchesAfterOr(t *testing.T) {
 	if res.Error != nil || rowsString(got) != rowsString(recsToRows(viaFind)) {
 		t.Errorf("C15 violated: Where(a = 0).Or(a = 1).FindInBatches(batch=1) delivered %s (error %v), Find under key order returns %s",
 			rowsString(got), res.Error, rowsString(recsToRows(viaFind)))
+	}
+}
+
+// q.Count(&n).Find(&rows) - the pagination idiom - on a chain whose scope derives a new
+// session (db.WithContext(ctx).Where(...)): Find must return the matching rows. Count's
+// clean-up of its SELECT count(*) is bound to the statement Count started with
+// (`defer delete(tx.Statement.Clauses, "SELECT")` evaluates its argument at once), the
+// statement Count returns is the one the scope derived and keeps the count(*) select list.
+func TestC15WitnessCountContinueDerivedScope(t *testing.T) {
+	rows := gridRows(4)
+	d := testdb.Open(testdb.Options{})
+	defer d.Close()
+	if err := insertRows(d, rows); err != nil {
+		t.Fatalf("harness: %v", err)
+	}
+	scope := func(db *gorm.DB) *gorm.DB { return db.WithContext(context.Background()).Where("b >= ?", -10) }
+	var want []Rec
+	if err := d.Model(&Rec{}).Scopes(scope).Order("id").Find(&want).Error; err != nil || len(want) != 4 {
+		t.Fatalf("harness: Find returns %d rows (%v), want 4", len(want), err)
+	}
+	var (
+		n   int64
+		got []Rec
+	)
+	tx := d.Model(&Rec{}).Scopes(scope).Order("id").Count(&n).Find(&got)
+	if tx.Error != nil || n != 4 || rowsString(recsToRows(got)) != rowsString(recsToRows(want)) {
+		t.Errorf("C15 violated: Model(&Rec{}).Scopes(derive-context + Where(b >= -10)).Order(id).Count(&n).Find(&rows): n=%d, error %v, rows %s; Find on the same chain returns %s",
+			n, tx.Error, rowsString(recsToRows(got)), rowsString(recsToRows(want)))
 	}
 }
